@@ -14,7 +14,8 @@ import (
 type nodeJob struct {
 	ID      string `json:"id"`
 	File    string `json:"file"`
-	Mode    string `json:"mode"` // import | require | script
+	Mode    string `json:"mode"` // import | require | script | import-seq
+	Files   []string `json:"files,omitempty"`
 	Global  string `json:"global,omitempty"`
 	WaitFor string `json:"waitFor,omitempty"` // the run is over when an event with this prefix has been logged
 }
